@@ -24,6 +24,7 @@ var orderExceptions = map[string]string{
 
 func c14(c *Ctx) {
 	r := c.R
+	defer c14ObjSuffix(c)
 	r.Explanation = "'Any schema is translated faithfully' quantifies over generated programs and needs the generator to run; what is decided statically: " +
 		"(O) reproducibility — a typestate analysis 'unordered until sorted' over the generator's SSA: every slice filled while ranging over a map is " +
 		"tainted (through fields, returns and arguments) and no element of a tainted slice may reach a jennifer emission call unless a sort of that slice " +
@@ -948,4 +949,195 @@ func FieldReadsDebug(p *load.Program) []string {
 	}
 	sort.Strings(out)
 	return out
+}
+
+// c14ObjSuffix (R14.N): a constructor whose name clashes with its type gets the suffix "Obj". The decision is
+// taken twice - where the struct is declared and where it is listed for registration - and the two deciders
+// must be one function of the definition, or init() names a type the package does not declare.
+func c14ObjSuffix(c *Ctx) {
+	r := c.R
+	r.Rule("R14.N", "the Obj suffix is decided by the same predicate over (constructor name, type name) where the struct is declared (generateInterfaces) and where it is listed for registration (getAllConstructors)", 1)
+	tr := an.NewTracer()
+	var descr func(v ssa.Value, d int) string
+	descr = func(v ssa.Value, d int) string {
+		if d > 6 {
+			return "…"
+		}
+		switch x := v.(type) {
+		case *ssa.Const:
+			if x.Value == nil {
+				return "nil"
+			}
+			return x.Value.ExactString()
+		case *ssa.Call:
+			var as []string
+			for _, a := range x.Call.Args {
+				as = append(as, descr(a, d+1))
+			}
+			n := an.CalleeName(x.Common())
+			return n[strings.LastIndex(n, "/")+1:] + "(" + strings.Join(as, ",") + ")"
+		case *ssa.UnOp:
+			if x.Op == token.NOT {
+				return "!" + descr(x.X, d+1)
+			}
+		case *ssa.BinOp:
+			a, b := descr(x.X, d+1), descr(x.Y, d+1)
+			if (x.Op == token.EQL || x.Op == token.NEQ) && b < a {
+				a, b = b, a
+			}
+			return "(" + a + " " + x.Op.String() + " " + b + ")"
+		}
+		if f := objField(v); f != "" {
+			return "def." + f
+		}
+		if typesKey(v, 0, map[ssa.Value]bool{}) == 1 {
+			// a key of schema.Types (directly or through the sorted key slice): createInternalSchema files every
+			// definition under its Interface, which the lemma below checks
+			return "def.Interface"
+		}
+		return "?" + tr.OriginString(v)
+	}
+	got := map[string]string{}
+	for _, fn := range []string{"generateInterfaces", "getAllConstructors"} {
+		f := c.fn("R14.N", load.GenPkg, "*Generator", fn)
+		if f == nil {
+			continue
+		}
+		var conds []string
+		for _, b := range f.Blocks {
+			for _, in := range b.Instrs {
+				bo, ok := in.(*ssa.BinOp)
+				if !ok || bo.Op != token.ADD {
+					continue
+				}
+				if k, ok := bo.Y.(*ssa.Const); !ok || k.Value == nil || k.Value.ExactString() != `"Obj"` {
+					continue
+				}
+				if len(b.Preds) != 1 {
+					conds = append(conds, "?the Obj concatenation is not under a single test")
+					continue
+				}
+				i, ok := b.Preds[0].Instrs[len(b.Preds[0].Instrs)-1].(*ssa.If)
+				if !ok {
+					conds = append(conds, "?unconditional")
+					continue
+				}
+				d := descr(i.Cond, 0)
+				if b.Preds[0].Succs[1] == b {
+					d = "!" + d
+				}
+				conds = append(conds, d)
+			}
+		}
+		if len(conds) != 1 {
+			r.Undecide("R14.N", "obj-suffix:"+fn, c.pos(f.Pos()), sprintf("expected one guarded `+ \"Obj\"` in %s, found %d", fn, len(conds)))
+			continue
+		}
+		got[fn] = conds[0]
+	}
+	if len(got) == 2 {
+		a, b := got["generateInterfaces"], got["getAllConstructors"]
+		r.Check(a == b && !strings.Contains(a, "?"), "R14.N", "obj-suffix:same-predicate", "", sprintf("declared under %s, registered under %s: a definition on which the two differ is declared under one Go name and registered under another (the package does not compile)", a, b))
+	}
+	// lemma: schema.Types files a definition under its Interface
+	if f := c.fn("R14.N", load.GenPkg, "", "createInternalSchema"); f != nil {
+		ok := false
+		for _, b := range f.Blocks {
+			for _, in := range b.Instrs {
+				if mu, isMU := in.(*ssa.MapUpdate); isMU && strings.Contains(tr.OriginString(mu.Value), "tlparser.Object") || isMU && strings.Contains(mu.Value.Type().String(), "tlparser.Object") {
+					if strings.HasSuffix(tr.OriginString(mu.Key), "tlparser.Object.Interface") {
+						ok = true
+					}
+				}
+			}
+		}
+		r.Check(ok, "R14.N", "obj-suffix:types-keyed-by-interface", c.pos(f.Pos()), "createInternalSchema groups the definitions in a map keyed by their Interface field")
+	}
+}
+
+// objField: v is a load of a field of a tlparser.Object (through a pointer or from a struct value).
+func objField(v ssa.Value) string {
+	isObj := func(t types.Type) (*types.Struct, bool) {
+		if p, ok := t.Underlying().(*types.Pointer); ok {
+			t = p.Elem()
+		}
+		st, ok := t.Underlying().(*types.Struct)
+		return st, ok && strings.HasSuffix(t.String(), "tlparser.Object")
+	}
+	switch x := v.(type) {
+	case *ssa.UnOp:
+		if fa, ok := x.X.(*ssa.FieldAddr); ok && x.Op == token.MUL {
+			if st, ok := isObj(fa.X.Type()); ok {
+				return st.Field(fa.Field).Name()
+			}
+		}
+	case *ssa.Field:
+		if st, ok := isObj(x.X.Type()); ok {
+			return st.Field(x.Field).Name()
+		}
+	}
+	return ""
+}
+
+// typesKey: 1 = the string is a key of a map[...][]tlparser.Object (taken from a range over it, possibly
+// collected in a slice first), 0 = nothing (an empty slice), 2 = something else.
+func typesKey(v ssa.Value, d int, seen map[ssa.Value]bool) int {
+	if d > 12 || seen[v] {
+		return 0
+	}
+	seen[v] = true
+	join := func(a, b int) int {
+		if a == 2 || b == 2 {
+			return 2
+		}
+		if a == 1 || b == 1 {
+			return 1
+		}
+		return 0
+	}
+	switch x := v.(type) {
+	case *ssa.Extract:
+		if nx, ok := x.Tuple.(*ssa.Next); ok && x.Index == 1 {
+			if rg, ok := nx.Iter.(*ssa.Range); ok {
+				if m, ok := rg.X.Type().Underlying().(*types.Map); ok && strings.HasSuffix(m.Elem().String(), "tlparser.Object") {
+					return 1
+				}
+			}
+		}
+		return 2
+	case *ssa.UnOp:
+		if x.Op == token.MUL {
+			if ia, ok := x.X.(*ssa.IndexAddr); ok {
+				return typesKey(ia.X, d+1, seen)
+			}
+		}
+		return 2
+	case *ssa.Phi:
+		res := 0
+		for _, e := range x.Edges {
+			res = join(res, typesKey(e, d+1, seen))
+		}
+		return res
+	case *ssa.Slice:
+		return typesKey(x.X, d+1, seen)
+	case *ssa.MakeSlice:
+		return 0
+	case *ssa.Alloc:
+		res := 0
+		for _, rf := range *x.Referrers() {
+			if ia, ok := rf.(*ssa.IndexAddr); ok {
+				for _, r2 := range *ia.Referrers() {
+					if st, ok := r2.(*ssa.Store); ok && st.Addr == ssa.Value(ia) {
+						res = join(res, typesKey(st.Val, d+1, seen))
+					}
+				}
+			}
+		}
+		return res
+	case *ssa.Call:
+		if an.CalleeName(x.Common()) == "builtin:append" && len(x.Call.Args) == 2 {
+			return join(typesKey(x.Call.Args[0], d+1, seen), typesKey(x.Call.Args[1], d+1, seen))
+		}
+	}
+	return 2
 }
